@@ -93,16 +93,17 @@ type LocalSpec struct {
 }
 
 type Spec struct {
-	Module      string      `json:"module"`       // output file Gen/<Module>.lean
-	Imports     []string    `json:"imports"`      // other Gen modules this one refers to
-	LeanImports []string    `json:"lean_imports"` // hand-written Lean modules (receiver structures of translated predicates)
-	Lits        []LitSpec   `json:"lits"`
-	Consts      []ConstSpec `json:"consts"`
-	Locals      []LocalSpec `json:"locals"`
-	Preds       []PredSpec  `json:"preds"`
-	Skels       []SkelSpec  `json:"skels"`
-	Routes      []RouteSpec `json:"routes"`
-	Flows       []FlowSpec  `json:"flows"` // control skeletons, see flow.go
+	Module      string        `json:"module"`       // output file Gen/<Module>.lean
+	Imports     []string      `json:"imports"`      // other Gen modules this one refers to
+	LeanImports []string      `json:"lean_imports"` // hand-written Lean modules (receiver structures of translated predicates)
+	Lits        []LitSpec     `json:"lits"`
+	StrLists    []StrListSpec `json:"strlists"` // see strlist.go
+	Consts      []ConstSpec   `json:"consts"`
+	Locals      []LocalSpec   `json:"locals"`
+	Preds       []PredSpec    `json:"preds"`
+	Skels       []SkelSpec    `json:"skels"`
+	Routes      []RouteSpec   `json:"routes"`
+	Flows       []FlowSpec    `json:"flows"` // control skeletons, see flow.go
 }
 
 var fset = token.NewFileSet()
@@ -975,6 +976,9 @@ func genModule(repo string, spec *Spec, outDir string) {
 	cs.WriteString("open Tunnox.PredPrelude\nnamespace Gen\n\n")
 	for i := range spec.Lits {
 		genLit(repo, &spec.Lits[i], &cs)
+	}
+	for i := range spec.StrLists {
+		genStrList(repo, &spec.StrLists[i], &cs)
 	}
 	for _, c := range spec.Consts {
 		p := loadPkg(repo, c.Dir)
